@@ -43,6 +43,29 @@ def c05_a(ctx: Ctx):
     if exported is None:
         out.append(ctx.inc(R, None, None, "signac.buffered is not <class>.buffer_backend", construct="signac:buffered"))
     sites = [("signac.job:Job.document", "signac.job:Job", "_document"), ("signac.project:Project.document", "signac.project:Project", "_document")]
+    # a document collection belongs to exactly one handle and lives in that handle's field: a collection that is entered into a table (a registry keyed by id
+    # or path, shared between handles) outlives the id / directory it was created for - after a re-key, move or re-creation the table serves the old file
+    for g in ctx.prog.funcs.values():
+        if g.module.name not in ("signac.job", "signac.project"):
+            continue
+        for n in body_nodes(g):
+            if isinstance(n, ast.Call) and (_ctor_class(ctx, g, n) or "").endswith("BufferedJSONAttrDict"):
+                pmg = ctx.parents(g)
+                par = pmg.get(id(n))
+                names = set()
+                if isinstance(par, ast.Assign):
+                    for t in par.targets:
+                        if isinstance(t, ast.Subscript):
+                            out.append(ctx.viol(R, g, par, f"a document collection is stored in the table {canon(t.value)}[...]: handles share it by key, and the entry is not tied to the life of "
+                                                "the job directory it was opened for (re-key, move, remove + re-create serve a stale handle)", construct=f"{g.qual}|document-registry"))
+                        elif isinstance(t, ast.Name):
+                            names.add(t.id)
+                for st in body_nodes(g):
+                    if isinstance(st, ast.Assign) and isinstance(st.value, ast.Name) and st.value.id in names:
+                        for t in st.targets:
+                            if isinstance(t, ast.Subscript):
+                                out.append(ctx.viol(R, g, st, f"a document collection is stored in the table {canon(t.value)}[...]: handles share it by key, and the entry is not tied to the life "
+                                                    "of the job directory it was opened for (re-key, move, remove + re-create serve a stale handle)", construct=f"{g.qual}|document-registry"))
     for q, cq, field in sites:
         fi = ctx.fn(q)
         env = ctx.env(fi)
@@ -252,7 +275,18 @@ def c05_c(ctx: Ctx):
                  and n.args and isinstance(n.args[0], ast.Name) and p and n.args[0].id == p[0] for n in body_nodes(fi))
         muts = [n for n in body_nodes(fi) if isinstance(n, ast.Call) and isinstance(n.func, ast.Attribute) and n.func.attr in ("clear", "update", "reset", "pop", "setdefault")
                 and ("doc" in canon(common.inline_at(ctx, fi, n.func.value, n)))]
-        if ok and len(muts) == 1:
+        # every normal path through the setter performs the reset(): a path that replaces the content behind the collection's back (copying / moving a file onto the
+        # document file) bypasses its atomic writer, its buffer and its in-memory state
+        cfgs = ctx.cfg(fi)
+        resets = {i for n in body_nodes(fi) if isinstance(n, ast.Call) and isinstance(n.func, ast.Attribute) and n.func.attr == "reset" for i in ctx.node_ids(fi, n)}
+        bypass = cfgs.path(cfgs.entry, {cfgs.exit}, blocked=resets, kinds="n") if resets else None
+        direct = [e for e in ctx.effects.direct(fi) if e.kind in ("rename", "open-write", "write", "delete")]
+        if ok and bypass is not None:
+            out.append(ctx.viol(R, fi, (direct[0].node if direct else fi.node), "whole-document assignment can complete without reset() on the document handle"
+                                + (f" and writes the file itself ({direct[0].prim})" if direct else "") + ": the content is replaced behind the collection's back - no temporary + "
+                                "os.replace of its writer (shutil.move across file systems copies into the live file), a stale buffer and a stale in-memory copy",
+                                witness=cfgs.describe_path(bypass), construct=q + "|always-reset"))
+        elif ok and len(muts) == 1:
             out.append(ctx.ok(R, fi, fi.node, "assignment is one reset(<new value>) on the existing document handle (a single atomic write)"))
         elif len(muts) >= 2:
             out.append(ctx.viol(R, fi, muts[0], f"whole-document assignment is split into {len(muts)} separate writes ({', '.join(m.func.attr for m in muts)}): a reader or a crash between them "
